@@ -576,6 +576,12 @@ func (fv *funcVerifier) execRange(st *State, x *ast.RangeStmt, label string) {
 		fv.evalExpr(st, x.X)
 	}
 
+	var visitedKey smt.Term
+	savedVisited, hadVisited := st.ghost["visited"]
+	if kind == "map" {
+		ks := fv.so.sortOf(mt.Key())
+		st.ghost["visited"] = smt.Term{S: "((as const " + smt.Arr(ks, smt.Bool) + ") false)", Sort: smt.Arr(ks, smt.Bool)}
+	}
 	pre := st.clone()
 	if keyVar != nil {
 		mi.vars[keyVar] = false
@@ -618,6 +624,9 @@ func (fv *funcVerifier) execRange(st *State, x *ast.RangeStmt, label string) {
 		}
 	}
 	fv.havocLoop(st, mi)
+	if kind == "map" {
+		st.ghost["visited"] = fv.c.Fresh("visited", st.ghost["visited"].Sort)
+	}
 	var idx smt.Term
 	if kind != "map" && kind != "chan" {
 		idx = fv.c.Fresh("ridx", smt.Int)
@@ -652,6 +661,9 @@ func (fv *funcVerifier) execRange(st *State, x *ast.RangeStmt, label string) {
 		k := fv.fresh(st, "mk", mt.Key())
 		v, present := fv.mapLookup(st, mapRef, k, mt)
 		fv.assume(st, present)
+		// each key is visited at most once: ghost set "visited"
+		fv.assume(st, smt.Not(smt.Select(st.ghost["visited"], k)))
+		visitedKey = k
 		if keyVar != nil {
 			st.vars[keyVar] = k
 		}
@@ -676,6 +688,9 @@ func (fv *funcVerifier) execRange(st *State, x *ast.RangeStmt, label string) {
 		if idx.S != "" {
 			bindIdx(body, smt.Add(idx, smt.IntLit(1)))
 		}
+		if kind == "map" && visitedKey.S != "" {
+			body.ghost["visited"] = fv.c.Let("visited", smt.Store(body.ghost["visited"], visitedKey, smt.True))
+		}
 		fv.assertLoopInvs(body, spec, pre, "loopinv.step", key, x.Pos())
 		for i, c := range cands {
 			if fv.candEnabled(key, c) {
@@ -686,5 +701,12 @@ func (fv *funcVerifier) execRange(st *State, x *ast.RangeStmt, label string) {
 		}
 	}
 	res := fv.mergeAll(exit, frame.breaks)
+	if kind == "map" {
+		if hadVisited {
+			res.ghost["visited"] = savedVisited
+		} else {
+			delete(res.ghost, "visited")
+		}
+	}
 	*st = *res
 }
